@@ -45,15 +45,23 @@ Qed.
 Print Assumptions int_clamp_iff.
 
 (* non-vacuity: the hypotheses are satisfiable at the boundaries and the tables are populated *)
+Definition aop_code (o : aop) : Z :=
+  match o with AAdd => 0 | ASub => 1 | AMul => 2 | ADiv => 3 | AMod => 4 | AUSub => 5 | APow => 6 end.
+Definition key_eqb (a b : aop * nty) : bool :=
+  (aop_code (fst a) =? aop_code (fst b)) && (nbytes (snd a) =? nbytes (snd b))
+  && Bool.eqb (nsigned (snd a)) (nsigned (snd b)) && Bool.eqb (ndec (snd a)) (ndec (snd b)).
+Definition outcome_eqb (a b : outcome) : bool :=
+  match a, b with Val x, Val y => x =? y | Revert, Revert => true | Unit, Unit => true | _, _ => false end.
+Definition has_case (op : aop) (T : nty) (x y : Z) (o : outcome) : bool :=
+  existsb (fun p => key_eqb (fst p) (op, T) && outcome_eqb (leval (env2 x y) (snd p)) o) legacy_templates.
+
 Example legacy_nonvacuous :
   let i8 := Build_nty 1 true false in
   in_range i8 (-128) /\ in_range i8 127 /\
-  (exists t, In (AMul, i8, t) legacy_templates /\ leval (env2 (-128) (-1)) t = Revert
-                                               /\ leval (env2 (-128) 1) t = Val (W - 128)) /\
-  (exists t, In (ADiv, Build_nty 32 true false, t) legacy_templates /\ leval (env2 MINS (-1)) t = Revert).
+  has_case AMul i8 (-128) (-1) Revert = true /\ has_case AMul i8 (-128) 1 (Val (W - 128)) = true /\
+  has_case ADiv (Build_nty 32 true false) MINS (-1) Revert = true /\
+  has_case ADiv decimal_t 10000000000 30000000000 (Val 3333333333) = true.
 Proof.
-  cbv zeta. split; [unfold in_range; cbn; lia|]. split; [unfold in_range; cbn; lia|]. split.
-  - eexists. split; [unfold legacy_templates; repeat (first [left; reflexivity | right])|]. split; vm_compute; reflexivity.
-  - eexists. split; [|vm_compute; reflexivity]. unfold legacy_templates.
-    repeat (first [left; reflexivity | right]).
+  cbv zeta. split; [unfold in_range; cbn; lia|]. split; [unfold in_range; cbn; lia|].
+  repeat split; vm_compute; reflexivity.
 Qed.
